@@ -236,6 +236,37 @@ def s12():
     return "S12-reply-channel-dropped-by-worker", src
 
 
+def s13():
+    """a message in flight to a stale registration is re-queued (at the head) while the channel's ring buffer is wrapped
+    and full: W's select is satisfied through c1, its registration on c stays behind; the first message on c goes to that
+    registration, meanwhile main gives 3, takes 2, gives 2 (a 4-slot ring wraps); when W's loop gets the in-flight message
+    it finds the fiber gone and puts the message back"""
+    src = HEADER.format(mk=MSG["num"]) + """
+(def c1 (ev/thread-chan 8)) (def c (ev/thread-chan 8)) (def ack (ev/thread-chan 8)) (def fin (ev/thread-chan 8))
+(ev/thread (fn [[c1 c ack fin]]
+             (def r (ev/select c1 c))
+             (ev/give ack (r 0))
+             (ev/take fin)
+             (ev/give ack :done))
+           [c1 c ack fin] :n)
+(ev/sleep 1)          # W registers on both channels
+(ev/give c1 :go)
+(def first-ack (ev/take ack))
+(def taken @[])
+(ev/give c 1)
+(ev/give c 2) (ev/give c 3) (ev/give c 4)
+(array/push taken (ev/take c)) (array/push taken (ev/take c))
+(ev/give c 5) (ev/give c 6)
+(ev/give fin true)
+(def second-ack (ev/take ack))
+(ev/sleep 1)          # a re-dispatched message may still be on its way back
+(repeat (ev/count c) (array/push taken (ev/take c)))
+(print "got " (show [first-ack second-ack taken]))
+(os/exit 0)
+"""
+    return "S13-requeue-into-wrapped-ring", src
+
+
 def parse_j(text):
     return text
 
@@ -307,6 +338,16 @@ def oracle(name, out):
         want = "@[[:first :timed-out] [:second 777]]" if "stale-select" in name else "@[[:first :timed-out] [:second [:take 777]]]"
         if got != want:
             return ("wrong-delivery", "got %s want %s" % (got, want))
+    elif name.startswith("S13"):
+        m = re.match(r"\[:take :done @\[([0-9 ]*)\]\]", got)
+        if not m:
+            return ("wrong-delivery", "got %s" % got)
+        vals = [int(x) for x in m.group(1).split()]
+        if sorted(vals) != [1, 2, 3, 4, 5, 6]:
+            return ("lost-or-duplicated", "sent 1..6 on the channel, drained %s" % vals)
+        rest = [v for v in vals if v != 1]
+        if rest != sorted(rest):
+            return ("order", "messages 2..6 (never in flight to a stale registration) arrived as %s" % rest)
     elif name.startswith("S10"):
         if got != "@[0 1]":
             return ("lock", "got %s" % got)
@@ -470,7 +511,7 @@ def main():
         scen = []
         if chk.quick:
             scen += [s1(2, 0, "num"), s1(2, 1, "tab"), s2(1, 0), s3(1, 0), s4(), s5("reader"), s5("writer"), s6(),
-                     s7("returns"), s8(), s9(), s10(), s11("select"), s11("take"), s12()]
+                     s7("returns"), s8(), s9(), s10(), s11("select"), s11("take"), s12(), s13()]
             plan = {"bound": 2, "max_exec": 2500}
         else:
             for k in (1, 2, 3):
@@ -478,7 +519,7 @@ def main():
                     scen.append(s1(k, cap, "num"))
             scen += [s1(2, 1, "str"), s1(2, 0, "tup"), s1(2, 1, "tab"), s2(1, 0), s2(2, 1), s3(2, 0), s3(2, 1), s4(),
                      s5("reader"), s5("writer"), s6(), s7("returns"), s7("errors"), s8(), s9(), s10(),
-                     s11("select"), s11("take"), s12()]
+                     s11("select"), s11("take"), s12(), s13()]
             plan = {"bound": 2, "max_exec": 40000}
         only = chk.args.only
         if only:
